@@ -183,7 +183,7 @@ def run(chk):
             docs.append((tname, gen.mutate(rng, text, [b"\n", b" ", b":", b",", b"x", b"-", b"1", b"yes", b"|"]), None))
     ucases = [("cunmarshal", [t.encode(), text]) for t, text, _ in docs]
     ui, um = chk.run_both(ucases)
-    chk.compare("unmarshal-documents", ucases, ui, um)
+    chk.compare("unmarshal-documents", ucases, ui, um, spec=False)
     for c, i, (t, text, missing) in zip(ucases, ui, docs):
         if missing and i != "err":
             chk.violate({"kind": "property", "case": lib.show_case(c), "impl": i[:800],
